@@ -261,4 +261,145 @@ theorem rollbackTx_cb (c : Ctx) (s s' : Store) (bals bals' : Bals) (blk : BlockM
     subst e1; subst e3
     exact rollbackCbOuts_ok c id blk tx.outs _ r hf
 
+/-- one record of the block, coinbase or not, in the form the loop wants -/
+theorem rollbackTx_step (rank : TxId → Nat) (c : Ctx) (s s' : Store) (bals bals' : Bals) (blk : BlockMeta) (id : TxId)
+    (rem : List (TxId × Nat)) (loc : BlkId × Nat) (tx : Tx) (hw : PendWF rank s)
+    (h : rollbackTx c s bals blk id = .ok (s', bals', rem))
+    (hloc : AMap.get s.txrecs (id, blk) = some loc) (htx : c.node.txByFileLoc loc = some tx)
+    (hid : tx.id = id) (hnew : AMap.get s.pending id = none) (hrank : ∀ i ∈ tx.ins, rank i.tx < rank id) :
+    s'.txrecs = AMap.erase s.txrecs (id, blk) ∧
+    (∀ k, AMap.get s'.pending k = if tx.cb = false ∧ id = k then some tx else AMap.get s.pending k) ∧
+    PendWF rank s' ∧
+    (∀ k : CredKey, k.tx ≠ id → hasCred s' k = hasCred s k) ∧
+    (∀ op ∈ rem, tx.cb = true ∧ op.1 = id ∧ op.2 < tx.outs.length) ∧
+    (tx.cb = true → ∀ j, j < tx.outs.length → hasCred s ⟨id, blk, j⟩ = true → (id, j) ∈ rem) := by
+  by_cases hcb : tx.cb = true
+  · obtain ⟨c1, c2, c3, c4, c5, c6⟩ := rollbackTx_cb c s s' bals bals' blk id rem loc tx h hloc htx hcb
+    refine ⟨c3, fun k => ?_, PendWF.congr hw c1 c2, c4, fun op hop => ⟨hcb, c5 op hop⟩, fun _ => c6⟩
+    rw [c1]; simp [hcb]
+  · have hcb' : tx.cb = false := by simpa using hcb
+    obtain ⟨n1, n2, n3, _, n5⟩ := rollbackTx_nc c s s' bals bals' blk id rem loc tx h hloc htx hcb'
+    refine ⟨n2, fun k => ?_, rollbackTx_wf rank c s s' bals bals' blk id rem loc tx hw h hloc htx hcb' hid hnew hrank,
+      n5, fun op hop => ?_, fun hc => absurd hc hcb⟩
+    · rw [n3]; simp [hcb']
+    · rw [n1] at hop; cases hop
+
+-- ------------------------------------------------------------------ the inner loop of Rollback
+
+/-- the body of the inner loop of Rollback (`rollbackBlockAt`) -/
+def rbStep (c : Ctx) (bm : BlockMeta) (a : RbAcc) (id : TxId) : M RbAcc := do
+  let (s', bals', rem) ← rollbackTx c a.s a.bals bm id
+  pure { a with s := s', bals := bals', cb := a.cb ++ rem }
+
+theorem rollbackBlockAt_eq (c : Ctx) (acc : RbAcc) (cur : Nat) :
+    rollbackBlockAt c acc cur =
+      match AMap.get acc.s.blocks cur with
+      | none => pure acc
+      | some (bh, txs) => txs.reverse.foldlM (rbStep c ⟨cur, bh⟩) { acc with heights := acc.heights ++ [cur] } := rfl
+
+theorem rbStep_inv {c : Ctx} {bm : BlockMeta} {a a' : RbAcc} {id : TxId} (h : rbStep c bm a id = .ok a') :
+    ∃ s' bals' rem, rollbackTx c a.s a.bals bm id = .ok (s', bals', rem) ∧
+      a' = { a with s := s', bals := bals', cb := a.cb ++ rem } := by
+  unfold rbStep at h
+  simp only [bind, Except.bind] at h
+  cases hr : rollbackTx c a.s a.bals bm id with
+  | error e => rw [hr] at h; cases h
+  | ok r =>
+    rw [hr] at h
+    obtain ⟨s', bals', rem⟩ := r
+    simp only [pure, Except.pure, Except.ok.injEq] at h
+    exact ⟨s', bals', rem, rfl, h.symm⟩
+
+/-- THE LOOP over recorded ids `l` (distinct, each with a readable record of a transaction of block `b`, none
+    pending): the non-coinbase ones join the pending set, the credits of the coinbase ones are collected -/
+theorem rbLoop (rank : TxId → Nat) (c : Ctx) (b : Block) (blk : BlockMeta)
+    (hbnd : (b.txs.map (·.id)).Nodup) (hrk : ∀ t ∈ b.txs, ∀ i ∈ t.ins, rank i.tx < rank t.id) :
+    ∀ (l : List TxId) (a a' : RbAcc), l.foldlM (rbStep c blk) a = .ok a' → l.Nodup →
+      (∀ id ∈ l, ∃ loc t, AMap.get a.s.txrecs (id, blk) = some loc ∧ c.node.txByFileLoc loc = some t ∧
+        t.id = id ∧ t ∈ b.txs) →
+      PendWF rank a.s → (∀ id ∈ l, AMap.get a.s.pending id = none) →
+      PendWF rank a'.s ∧
+      (∀ k t, AMap.get a'.s.pending k = some t ↔
+        AMap.get a.s.pending k = some t ∨ (k ∈ l ∧ t ∈ b.txs ∧ t.id = k ∧ t.cb = false)) ∧
+      (∀ op ∈ a'.cb, op ∈ a.cb ∨ ∃ u ∈ b.txs, u.cb = true ∧ u.id ∈ l ∧ op.1 = u.id ∧ op.2 < u.outs.length) ∧
+      (∀ op ∈ a.cb, op ∈ a'.cb) ∧
+      (∀ u ∈ b.txs, u.cb = true → u.id ∈ l → ∀ j, j < u.outs.length →
+        hasCred a.s ⟨u.id, blk, j⟩ = true → (u.id, j) ∈ a'.cb) ∧
+      a'.heights = a.heights := by
+  intro l
+  induction l with
+  | nil =>
+    intro a a' h _ _ hw _
+    simp [List.foldlM, pure, Except.pure] at h
+    subst h
+    exact ⟨hw, fun k t => by simp, fun op hop => Or.inl hop, fun op hop => hop,
+      fun u _ _ hu => (by cases hu), rfl⟩
+  | cons id l ih =>
+    intro a a' h hnd hrec hw hnp
+    simp only [List.foldlM, bind, Except.bind] at h
+    cases hf : rbStep c blk a id with
+    | error e => rw [hf] at h; cases h
+    | ok a1 =>
+      rw [hf] at h
+      obtain ⟨s1, bals1, rem, hrun, ha1⟩ := rbStep_inv hf
+      obtain ⟨hnotin, hnd'⟩ := List.nodup_cons.1 hnd
+      obtain ⟨loc, t, hloc, htx, hid, htb⟩ := hrec id (List.mem_cons_self ..)
+      obtain ⟨S1, S2, S3, S4, S5, S6⟩ := rollbackTx_step rank c a.s s1 a.bals bals1 blk id rem loc t hw hrun hloc htx
+        hid (hnp id (List.mem_cons_self ..)) (by rw [← hid]; exact hrk t htb)
+      subst ha1
+      have hne : ∀ id' ∈ l, id ≠ id' := fun id' h' hc => hnotin (hc ▸ h')
+      obtain ⟨I1, I2, I3, I4, I5, I6⟩ := ih _ a' h hnd' (by
+          intro id' h'
+          obtain ⟨loc', t', q1, q2⟩ := hrec id' (List.mem_cons_of_mem _ h')
+          refine ⟨loc', t', ?_, q2⟩
+          show AMap.get s1.txrecs _ = _
+          rw [S1, AMap.get_erase]
+          have : ¬ (id, blk) = (id', blk) := fun hc => hne id' h' (by injection hc)
+          simp [this, q1]) S3 (by
+          intro id' h'
+          show AMap.get s1.pending id' = none
+          rw [S2]
+          have := hne id' h'
+          simp [this, hnp id' (List.mem_cons_of_mem _ h')])
+      refine ⟨I1, fun k t' => ?_, fun op hop => ?_, fun op hop => I4 op (List.mem_append_left _ hop),
+        fun u hu hucb huid j hj hcr => ?_, I6⟩
+      · rw [I2]
+        show AMap.get s1.pending k = some t' ∨ _ ↔ _
+        rw [S2]
+        constructor
+        · rintro (hg | ⟨h1, h2⟩)
+          · split at hg
+            · rename_i hc
+              cases hg
+              exact Or.inr ⟨by rw [hc.2]; exact List.mem_cons_self .., htb, by rw [hid]; exact hc.2, hc.1⟩
+            · exact Or.inl hg
+          · exact Or.inr ⟨List.mem_cons_of_mem _ h1, h2⟩
+        · rintro (hg | ⟨h1, h2, h3, h4⟩)
+          · left
+            split
+            · rename_i hc
+              rw [← hc.2, hnp id (List.mem_cons_self ..)] at hg; cases hg
+            · exact hg
+          · rcases List.mem_cons.1 h1 with h1 | h1
+            · left
+              have : t' = t := eq_of_id hbnd h2 htb (by rw [h3, hid, h1])
+              subst this
+              rw [if_pos ⟨h4, h1.symm⟩]
+            · exact Or.inr ⟨h1, h2, h3, h4⟩
+      · rcases I3 op hop with hop | ⟨u, hu, q1, q2, q3⟩
+        · rcases List.mem_append.1 hop with hop | hop
+          · exact Or.inl hop
+          · obtain ⟨r1, r2, r3⟩ := S5 op hop
+            exact Or.inr ⟨t, htb, r1, by rw [hid]; exact List.mem_cons_self .., by rw [hid]; exact r2, r3⟩
+        · exact Or.inr ⟨u, hu, q1, List.mem_cons_of_mem _ q2, q3⟩
+      · rcases List.mem_cons.1 huid with h1 | h1
+        · have : u = t := eq_of_id hbnd hu htb (by rw [h1, hid])
+          subst this
+          rw [h1] at hcr ⊢
+          exact I4 _ (List.mem_append_right _ (S6 hucb j hj hcr))
+        · have hn : u.id ≠ id := fun hc => hnotin (hc ▸ h1)
+          refine I5 u hu hucb h1 j hj ?_
+          show hasCred s1 _ = true
+          rw [S4 _ hn]; exact hcr
+
 end MW.Lemmas.PendHist
